@@ -182,7 +182,77 @@ def d3(run: Run, prog: Program):
                 "selected by exactly these masks)")
 
 
+def d5(run: Run, prog: Program):
+    """phase_mean() and anomaly() are siblings: anomalies add back to the
+    observable with the phase means only if both select the samples of a phase
+    in the same way.  The selectors they apply to the windowed observable are
+    compared (loop variable and locals normalised); a method that selects phases
+    in another way than its sibling is reported."""
+    from .idioms import inline_locals
+    cd = prog.classes.get("ClimateData")
+    if cd is None:
+        raise AnalysisError("ClimateData vanished")
+    sel = {}
+    for mname in ("phase_mean", "anomaly"):
+        m = cd.methods.get(mname)
+        if m is None:
+            raise AnalysisError(f"ClimateData.{mname} vanished")
+        sn = m.params[0]
+        # names bound to the windowed observable
+        obs = {f"{sn}.observable()"}
+        for a in ast.walk(m.node):
+            if isinstance(a, ast.Assign) and isinstance(a.targets[0], ast.Name) and \
+                    ast.unparse(a.value) in obs:
+                obs.add(a.targets[0].id)
+        loopvars = {n.target.id for n in ast.walk(m.node)
+                    if isinstance(n, ast.For) and isinstance(n.target, ast.Name)}
+        out = set()
+        for sub in ast.walk(m.node):
+            if isinstance(sub, ast.Subscript) and isinstance(sub.ctx, ast.Load) and \
+                    ast.unparse(sub.value) in obs:
+                sl = inline_locals(m.node, sub.slice)
+                # X[a, :] and X[a] select the same rows
+                if isinstance(sl, ast.Tuple):
+                    elts = list(sl.elts)
+                    while len(elts) > 1 and isinstance(elts[-1], ast.Slice) and \
+                            elts[-1].lower is None and elts[-1].upper is None and \
+                            elts[-1].step is None:
+                        elts.pop()
+                    sl = elts[0] if len(elts) == 1 else ast.Tuple(elts=elts, ctx=ast.Load())
+                used = [v for v in sorted(loopvars)
+                        if any(isinstance(x, ast.Name) and x.id == v for x in ast.walk(sl))]
+                for k, v in enumerate(used):
+                    sl = _rename(sl, v, f"_i{k}")
+                # `self` may be spelled differently in the two methods
+                sl = _rename(sl, sn, "self")
+                out.add(ast.unparse(sl).replace(" ", ""))
+        sel[mname] = (m, out)
+    (pm, a), (an, b) = sel["phase_mean"], sel["anomaly"]
+    if not a or not b:
+        run.unknowns.append("D5: phase selection of phase_mean/anomaly not in "
+                            "subscript form; sibling agreement not decided")
+        return
+    ok = a == b
+    run.oblige("D5", "phase_mean~anomaly:selectors", ok, sample={
+        "phase_mean": sorted(a), "anomaly": sorted(b)})
+    if not ok:
+        run.add("D5", "ClimateData.phase_mean/selector-drift", pm.where,
+                f"phase_mean() selects the samples of a phase with {sorted(a)} but "
+                f"anomaly() with {sorted(b)}: the anomalies no longer add back, with "
+                f"the phase means, to the observable (e.g. when the cycle length does "
+                f"not divide the record)")
+
+
+def _rename(node, old, new):
+    class T(ast.NodeTransformer):
+        def visit_Name(self, n):
+            return ast.copy_location(ast.Name(id=new, ctx=n.ctx), n) if n.id == old else n
+    return T().visit(node)
+
+
 def check(run: Run, prog: Program):
+    run.rule("D5", "phase_mean() and anomaly() select the samples of a phase with the "
+             "same selector")
     run.rule("D1", "only the constructor and set_window read the unwindowed data")
     run.rule("D2", "set_global_window funnels into the virtual set_window with "
              "coinciding bounds; ClimateData's window setters rewrite the view and "
@@ -196,6 +266,7 @@ def check(run: Run, prog: Program):
     d1(run, prog)
     d2(run, prog)
     d3(run, prog)
+    d5(run, prog)
     from .rules_c06 import p1_restricted
     p1_restricted(run, "D4", prog,
                   lambda o: "ClimateData." in o and o.startswith(("cached:", "shared:")),
